@@ -105,7 +105,12 @@ func c19Stamp(worker int) {
 func c19Worker(seed int64, id int, useUDP bool, concurrent bool) (transcript []string, inconclusive string) {
 	r := rng(seed+int64(id)*1009, "c19worker")
 	cfg := defaultCfg(r)
-	cfg.SID = 0x0a000000 + uint32(id+1)
+	// identical firmware hands out identical managed-system session IDs (counting from the same
+	// start after boot): three BMCs in four do; the fourth has its own
+	cfg.SID = 0x0a000001
+	if id%4 == 2 {
+		cfg.SID = 0x0a000000 + uint32(id+1)
+	}
 	// the callers' passwords are adjacent pieces of one buffer (credentials read from one
 	// file): each has spare capacity behind it that belongs to its neighbour
 	cfg.Password = rbytes(r, c19PwLen)
